@@ -266,6 +266,55 @@ func c08Run(c *engine.Ctx) {
 		c.Sample(map[string]any{"program": `try delpaths([[0,0],[0,"a"]]) catch .`, "paths": len(paths), "lists": "every ordered pair and triple", "forms": 10})
 	}
 
+	// (b1') update operators over closed families of overlapping paths (the families of C02, here for the crash
+	// oracle only: the result is walked by the encoder, so a result that contains itself is a stack overflow)
+	c.Sub("update-overlaps")
+	{
+		type fam struct {
+			atoms []string
+			ins   []any
+		}
+		fams := []fam{
+			{c02OverlapObj, []any{univ.J(`{"a":{"b":1,"c":[1,2,3]},"b":2}`), univ.J(`{"a":{"c":[]}}`), nil}},
+			{c02OverlapArr, []any{univ.J(`[1,2,3]`), univ.J(`[[1],[2],[3],[4]]`), univ.J(`[]`), nil}},
+			{c02OverlapDeep, []any{univ.J(`[[[0]]]`), univ.J(`[[[0],[1]],[[2],3]]`), univ.J(`{"a":[[0]]}`), nil}},
+		}
+		ui := 0
+		for _, f := range fams {
+			n := len(f.atoms)
+			for i := 0; i < n; i++ {
+				for j := 0; j < n; j++ {
+					ui++
+					if !c.MineIdx(ui) || c.Expired() {
+						continue
+					}
+					for k := -1; k < n; k++ {
+						if c.Quick() && k >= 0 && (i+j+k)%3 != 0 {
+							continue
+						}
+						ps := f.atoms[i] + ", " + f.atoms[j]
+						if k >= 0 {
+							ps += ", " + f.atoms[k]
+						}
+						for _, form := range []string{"(%s) |= [.]", "(%s) |= [., .]", "(%s) = [.]", "(%s) += [.]", "(%s) |= {c: ., d: [.]}", "del(%s)", "try ((%s) |= (.[0] = .)) catch .", "reduce path(%s) as $p (.; setpath($p; [., getpath($p)]))", "[paths] as $ps | (%s) |= [., $ps]", "to_entries? // . | (%s) |= [.] | tojson"} {
+							src := strings.ReplaceAll(form, "%s", ps)
+							if !c.Guard(src) {
+								continue
+							}
+							c.Eval()
+							if p := c08Exercise(src, f.ins); p != "" {
+								c.Violation(src, "crash", map[string]any{"query": src, "why": p})
+							}
+							c.Unguard()
+						}
+						c.DistinctN(1)
+					}
+				}
+			}
+		}
+		c.Sample(map[string]any{"program": "(.[0][0], .[-1][0:1]) |= [.]", "families": "every ordered pair (thorough: triple; quick: a third of the triples) of the 15-18 overlapping paths of the three C02 families", "forms": 10})
+	}
+
 	// (b2) size families: every k = 1..K for constructs whose implementation has capacity thresholds
 	c.Sub("size-families")
 	K := 140
@@ -549,6 +598,9 @@ func c08Replay(v *engine.Violation) (bool, string) {
 	case "path-lists":
 		p := c08Exercise(d["query"].(string), []any{univ.J(`[[1,2]]`), univ.J(`{"a":[1,{"b":2}]}`), nil, univ.J(`[1,[2,[3]]]`), univ.J(`{"a":{"b":{"c":1}}}`)})
 		return p != "", p
+	case "update-overlaps":
+		p := c08Exercise(d["query"].(string), []any{univ.J(`{"a":{"b":1,"c":[1,2,3]},"b":2}`), univ.J(`{"a":{"c":[]}}`), nil, univ.J(`[1,2,3]`), univ.J(`[[1],[2],[3],[4]]`), univ.J(`[]`), univ.J(`[[[0]]]`), univ.J(`[[[0],[1]],[[2],3]]`), univ.J(`{"a":[[0]]}`)})
+		return p != "", p
 	case "query-mutations":
 		inputs := []any{nil, univ.J(`[1,[2,"a"],{"a":null}]`), univ.J(`{"a":[1,2],"b":"x"}`)}
 		p := c08Exercise(d["query"].(string), inputs)
@@ -608,7 +660,7 @@ func init() {
 	engine.Register(&engine.Check{
 		ID:    "C08",
 		Level: "exploration",
-		Rule: "(a) every single-byte deletion, insertion and replacement (20-token alphabet, thorough 40) at every position of every corpus query is parsed and, if accepted, compiled, run on 3 inputs under a poll budget and rendered with Marshal/Preview/Error(); (b) every builtin name/arity reported by `builtins` is called on every value of a 60-value universe of wrong-typed and boundary values in every Go representation (NaN/inf float64, huge *big.Int, out-of-range json.Number, invalid UTF-8, odd containers) as input and as argument values; " +
+		Rule: "(a) every single-byte deletion, insertion and replacement (20-token alphabet, thorough 40) at every position of every corpus query is parsed and, if accepted, compiled, run on 3 inputs under a poll budget and rendered with Marshal/Preview/Error(); (a') every ordered pair (thorough: triple) of the overlapping paths of the three C02 families under 10 update forms, result walked; (b) every builtin name/arity reported by `builtins` is called on every value of a 60-value universe of wrong-typed and boundary values in every Go representation (NaN/inf float64, huge *big.Int, out-of-range json.Number, invalid UTF-8, odd containers) as input and as argument values; " +
 			"(c) every argument sequence of length <= 3 over a 54-token alphabet (incl. modules that import each other or themselves) (flags in all spellings, missing and malformed operands, files present/absent/directory, good and bad queries) x 7 stdin texts runs in-process, a deterministic slice again through the real binary. Verdict per case: no panic/fatal, ParseError.Offset within the source, failures as error values, documented exit status, no Go stack trace.",
 		Assume:         []string{"budget exhaustion, hangs and memory exhaustion are recorded as skipped, not as violations (the statement excludes programs that legitimately demand unbounded resources)"},
 		Run:            c08Run,
